@@ -276,8 +276,12 @@ def _c17(prop, tier, seed, jobs, limit):
         'created before, and nothing else escapes; typed-equal kwargs give the identical object, differing ones unequal '
         'objects, hash agrees with ==, options read back, BeartypeConf(**conf.kwargs) is conf.',
         ['beartype._conf.confmain', 'beartype._conf.conftest', 'beartype._conf._confoverrides', 'beartype._conf._confget'],
-        assumptions=['option values outside the listed domains (NumPy booleans, unhashable collections for '
-                     'claw_skip_package_names, hint_overrides) and thread identity are outside the claim',
+        assumptions=['option values outside the listed domains (NumPy booleans, other collection values) and thread identity are outside the claim',
+                     'claw_skip_package_names / hint_overrides / class-valued options range over enumerated menus of valid and invalid '
+                     'values picked by a symbolic index (13 / 8-9 / 3-5 values); is_pep484_tower is varied symbolically and, in '
+                     'tower_overrides, together with overrides that repeat or contradict the tower expansions',
+                     'stub: FrozenDict.__or__ runs with tracing switched off (CrossHair\'s patched dict() returns a mapping shell for '
+                     'which the C-level dict.__or__ answers NotImplemented); all its operands are concrete',
                      'environment: NO_COLOR / BEARTYPE_IS_COLOR unset'])
 
 
@@ -344,7 +348,7 @@ def _c20(prop, tier, seed, jobs, limit):
                                   'beartype.bite.collection.infercollectionsabc', 'beartype.bite.collection.infercollectionitems',
                                   'beartype.door._func.doorfunc:is_bearable'],
                            extra_assumptions=['object skeletons (class trees, lengths) are enumerated; scalar payloads and the draw are solver variables',
-                                              'the recursion-warning clause (self-referential containers) is a termination observation and not claimed',
+                                              'the recursion-warning clause (self-referential containers) is observed concretely on enumerated cyclic shapes (self, two-container and through-a-tuple cycles over list / deque / dict / OrderedDict / user MutableSequence with 0-3 data siblings): infer_hint must return and warn -- enumeration, not a solver verdict',
                                               'objects whose inferred hint depends on payload values, third-party containers: outside'])
 
 
